@@ -171,6 +171,20 @@ def run(R, tier):
                           'meta': {'spec': spec, 'obs': 'lazy signs', 'pairs': [list(k) for k, _ in part], 'impl': [int(s) for _, s in part]}})
             R.case((desc, 'lazy'), sample={'algebra': desc, 'observation': f'{n} lazy sign-table entries'})
             R.count('lazy_entries', n)
+            # the algebra does not depend on the array the caller passed as signature: that array is changed afterwards (a reused buffer)
+            if 'sig' in spec and not spec.get('basis'):
+                import numpy as _np
+                buf = _np.array(list(spec['sig']))
+                kw_ = {} if spec.get('start') is None else {'start_index': spec['start']}
+                from kingdon import Algebra as _Alg
+                alg_b = _Alg(signature=buf, **kw_)
+                buf[:] = buf[::-1] * -1 + (buf[::-1] == 0)          # reversed, signs flipped, zeros become ones
+                diff = [(I, J) for (I, J), s_ in part[:120] if alg_b.signs[I, J] != s_]
+                R.case((desc, 'signature-buffer'), True)
+                if diff or [int(x_) for x_ in alg_b.signature] != [int(x_) for x_ in spec['sig']]:
+                    R.violation({'clause': 'signature-buffer', 'basis': algs.kind(spec)}, {'algebra': spec, 'pairs': [list(p_) for p_ in diff[:5]]},
+                                f'Algebra(signature=buf) with buf = {list(spec["sig"])}, buf changed in place afterwards: the algebra now reports the signature '
+                                f'{[int(x_) for x_ in alg_b.signature]} and {len(diff)} of 120 sampled blade products differ from those of Algebra({desc}), e.g. {diff[:3]}')
         # 3. cayley (strings) for small algebras
         if d <= 3:
             ents = []
